@@ -18,6 +18,7 @@ import ast
 
 from ..core import stmt_text, own_nodes
 from ..report import Inst
+from ..props import props_for
 
 RULE = 'R4'
 
@@ -378,6 +379,79 @@ def run(ctx) -> list[Inst]:
                 msg=(f"{what} reaches asset_names.add without a membership test after it: two live "
                      f"assets can end up with the same name (e.g. names A, A:2, A with ids 1,2,3)"),
                 file=rel, line=(b[2].lineno if b else call.lineno), props=props_d))
+    insts += _stable_keys(ctx)
+    return insts
+
+
+def _property_reads(prog, env, obj_expr, attr):
+    """fields a property getter `attr` of the object's class reads from self (one level)."""
+    t = env.type_of(obj_expr)
+    if t[0] != 'cls':
+        return None
+    c = prog.classes.get(t[1])
+    if c is None or attr not in c.methods:
+        return None
+    m = c.methods[attr]
+    if not any('property' in stmt_text(d) for d in m.node.decorator_list):
+        return None
+    return {n.attr for n in own_nodes(m.node) if isinstance(n, ast.Attribute) and isinstance(n.value, ast.Name)
+            and n.value.id == m.self_name and isinstance(n.ctx, ast.Load)}
+
+
+def _stable_keys(ctx) -> list[Inst]:
+    """(e) an object is filed in a lookup dictionary under a key read from its own fields
+    (``D[x.k] = x``, also through a property such as full_name): no path from that store reaches a
+    later assignment to one of those fields of x in the same function - otherwise the object sits
+    under the key it had BEFORE the assignment (stale key: lookups by the real key miss it)."""
+    prog = ctx.prog
+    insts = []
+    for f in prog.all_funcs():
+        if f.cls is None or f.cls.name not in ('AttackGraph', 'Model', 'LanguageGraph'):
+            continue
+        cfg = ctx.cfg(f)
+        env = prog.env(f)
+        rel = f.module.relpath
+        for n in own_nodes(f.node):
+            if not (isinstance(n, ast.Assign) and len(n.targets) == 1 and isinstance(n.targets[0], ast.Subscript)
+                    and isinstance(n.value, ast.Name)):
+                continue
+            t = n.targets[0]
+            if not (isinstance(t.value, ast.Attribute) and isinstance(t.value.value, ast.Name)
+                    and t.value.value.id == f.self_name):
+                continue
+            x = n.value.id
+            fields = set()
+            for sub in ast.walk(t.slice):
+                if isinstance(sub, ast.Attribute) and isinstance(sub.value, ast.Name) and sub.value.id == x:
+                    pr = _property_reads(prog, env, sub.value, sub.attr)
+                    fields |= pr if pr is not None else {sub.attr}
+            if not fields:
+                continue
+            store = cfg.node_of(n)
+            if store is None:
+                continue
+            after = cfg.reachable_from(store)
+            late = []
+            for m in own_nodes(f.node):
+                if isinstance(m, (ast.Assign, ast.AugAssign, ast.AnnAssign)):
+                    tg = m.targets if isinstance(m, ast.Assign) else [m.target]
+                    for g in tg:
+                        if isinstance(g, ast.Attribute) and isinstance(g.value, ast.Name) and g.value.id == x \
+                                and g.attr in fields:
+                            mn = cfg.node_of(m)
+                            if mn is not None and mn.idx in after:
+                                late.append(m)
+            construct = f'(e) key of {stmt_text(t.value)} is read after {x}.{{{",".join(sorted(fields))}}} are final'
+            if late:
+                insts.append(Inst(
+                    RULE, f.short, construct, 'violation',
+                    msg=(f"'{stmt_text(n, 70)}' files {x} under a key computed from its fields, but "
+                         f"'{stmt_text(late[0], 60)}' changes such a field afterwards: the dictionary keeps the key "
+                         f"{x} had before (lookups by the real key miss it, the stale key stays behind)"),
+                    file=rel, line=n.lineno, props=props_for(f.short, rel)))
+            else:
+                insts.append(Inst(RULE, f.short, construct, 'ok', file=rel, line=n.lineno,
+                                  props=props_for(f.short, rel)))
     return insts
 
 
